@@ -22,15 +22,24 @@ import (
 
 // vfFeedReader is an io.Reader that returns exactly the chunks it was fed, one per Read (a controlled segmentation).
 type vfFeedReader struct {
-	ch  chan []byte
-	cur []byte
+	ch     chan []byte
+	cur    []byte
+	closed atomic.Bool
 }
 
-func newVfFeedReader() *vfFeedReader { return &vfFeedReader{ch: make(chan []byte, 100000)} }
+func newVfFeedReader() *vfFeedReader { return &vfFeedReader{ch: make(chan []byte, 4096)} }
 
 func (r *vfFeedReader) feed(b []byte) {
-	if len(b) > 0 {
+	if len(b) > 0 && !r.closed.Load() {
+		defer func() { _ = recover() }() // a late feed after close is dropped
 		r.ch <- append([]byte(nil), b...)
+	}
+}
+
+// close makes the reader report EOF once it is drained, so that the pump goroutines reading from it end.
+func (r *vfFeedReader) close() {
+	if r.closed.CompareAndSwap(false, true) {
+		close(r.ch)
 	}
 }
 
